@@ -42,6 +42,7 @@ func checkC11(c *Ctx, r *Report) {
 	r.rule("C11.R8", "a recharging path parameter that is not of the form <ueId>_<ratingGroup> is answered 4xx: the parts of the parameter are used only where their number is known to be exactly two", 1)
 	r.rule("C11.R9", "no request can block on a lock its own call chain already holds (shared with C09.R3): such a request never returns and keeps its subscriber - and everybody queuing behind the lock - waiting", 1)
 	r.rule("C11.R10", "every request body is decoded into an empty object made for this request (encoding/json only sets the members present in the body): the checks on mandatory members look at this request, not at what an earlier one left behind", 3)
+	r.rule("C11.R11", "no lock is held across the notification to the consumer (shared with C09.R8): a consumer that updates before it answers would find the subscriber blocked", 1)
 	r.rule("C11.R5", "every problem status built in the API/processor is a 4xx constant", 8)
 
 	entries := httpEntries(c)
@@ -147,6 +148,7 @@ func checkC11(c *Ctx, r *Report) {
 	// ---- R8: the recharging path parameter is <ueId>_<ratingGroup>: exactly two parts
 	c11RechargeParamShape(c, r, "C11.R8")
 	jsonFreshTargets(c, r, "C11.R10")
+	noLockAcrossNotification(c, r, "C11.R11")
 	r.shareFrom(c, checkC09, map[string]string{"C09.R3": "C11.R9"})
 
 	// ---- R7
